@@ -904,10 +904,46 @@ class Interp:
                 if t != is_and:
                     return val
                 continue
+            if is_sym_bool(val):
+                merged = self._boolop_rest(n, i, t, is_and, env, f)
+                if merged is not None:
+                    return merged
             taken = self.ctx.branch(t)
             if taken != is_and:
                 return val
         return val
+
+    def _boolop_rest(self, n, i, t, is_and, env, f):
+        """`A and B` / `A or B` with a symbolic boolean A: when the rest evaluates, under the assumption that it IS
+        evaluated, on a single path to a boolean without any effect, the result is the formula And(A, B) / Or(A, B)
+        and no fork is needed (short-circuit semantics preserved: B is only ever evaluated under A resp. not A)."""
+        ctx = self.ctx
+        rest = ast.BoolOp(op=n.op, values=n.values[i + 1:]) if len(n.values) - i - 1 > 1 else n.values[i + 1]
+        snap = ctx.snapshot()
+        guard = t if is_and else z3.Not(t)
+
+        def thunk():
+            ctx.assume(guard)
+            return self.ev(rest, Env(parent=env), f)
+        try:
+            res = ctx.explore(thunk)
+        except Unsupported:
+            return None
+        if len(res) != 1 or res[0][1] != "ok":
+            return None
+        conds, _, val, full = res[0]
+        if not (is_sym_bool(val) or isinstance(val, bool)):
+            return None
+        extra, heap1, store1, printed1, _ = full
+        if printed1 != snap[3] or any(h not in snap[1] or not snap[1][h].eq(tm) for h, tm in heap1.items()):
+            return None
+        if set(store1) != set(snap[2]):
+            return None
+        facts = [a for a in extra if not any(a is c for c in conds) and not a.eq(z3.simplify(guard)) and not a.eq(guard)]
+        if facts:
+            ctx.assumptions.append(z3.Implies(guard, z3.And(*facts)))
+        v = z3.BoolVal(val) if isinstance(val, bool) else val
+        return z3.And(t, v) if is_and else z3.Or(t, v)
 
     def ex_UnaryOp(self, n, env, f):
         v = self.ev(n.operand, env, f)
